@@ -640,9 +640,9 @@ func (p *wat2X64Worker) buildFunc_ins(
 
 			// 如果返回值位置和目标block的base不一致则需要逐个复制
 			if firstResultBase > destScopeContex.StackBase {
-				// 返回值是逆序出栈
+				// 目标位置低于源位置: 必须从低到高复制, 逆序会覆盖尚未读取的源
 				// 注意: 这里只是搬运, 不能改变栈的状态
-				for i := len(destScopeContex.Result) - 1; i >= 0; i-- {
+				for i := 0; i < len(destScopeContex.Result); i++ {
 					switch xType := destScopeContex.Result[i]; xType {
 					case token.I32:
 						fmt.Fprintf(w, "    mov eax, dword ptr [rbp%+d] # copy result\n", p.fnWasmR0Base-(firstResultBase+i)*8-8)
@@ -705,9 +705,9 @@ func (p *wat2X64Worker) buildFunc_ins(
 
 			// 如果返回值位置和目标block的base不一致则需要逐个复制
 			if firstResultBase > destScopeContex.StackBase {
-				// 返回值是逆序出栈
+				// 目标位置低于源位置: 必须从低到高复制, 逆序会覆盖尚未读取的源
 				// 注意: 这里只是搬运, 不能改变栈的状态
-				for i := len(destScopeContex.Result) - 1; i >= 0; i-- {
+				for i := 0; i < len(destScopeContex.Result); i++ {
 					switch xType := destScopeContex.Result[i]; xType {
 					case token.I32:
 						fmt.Fprintf(w, "    mov eax, dword ptr [rbp%+d] # copy result\n", p.fnWasmR0Base-(firstResultBase+i)*8-8)
@@ -883,9 +883,9 @@ func (p *wat2X64Worker) buildFunc_ins(
 
 			// 如果返回值位置和目标block的base不一致则需要逐个复制
 			if firstResultBase > destScopeContex.StackBase {
-				// 返回值是逆序出栈
+				// 目标位置低于源位置: 必须从低到高复制, 逆序会覆盖尚未读取的源
 				// 注意: 这里只是搬运, 不能改变栈的状态
-				for i := len(destScopeContex.Result) - 1; i >= 0; i-- {
+				for i := 0; i < len(destScopeContex.Result); i++ {
 					switch xType := destScopeContex.Result[i]; xType {
 					case token.I32:
 						fmt.Fprintf(w, "    mov eax, dword ptr [rbp%+d] # copy result\n", p.fnWasmR0Base-(firstResultBase+i)*8-8)
